@@ -686,6 +686,8 @@ func Structures() []Entry {
 		if mk != nil {
 			out = append(out, Entry{ID: "S:dup-decl", Mk: mk, Family: "struct", Hooks: -1, Seeds: []string{
 				"variable \"x\" {\n  type = string\n}\nvariable \"a\" {\n  default = var.x\n}\n\n\nvariable \"x\" {\n  type = number\n}\nvariable \"b\" {\n  default = var.x\n}\n",
+				// the first line begins with blanks (the body's range starts at the first token)
+				"  variable \"x\" {\n  type = string\n}\n",
 			}})
 		}
 	}
